@@ -88,7 +88,7 @@ fn profile_for(suite: &str) -> Profile {
     match suite {
         "C06" => Profile { next: 40, peek: 15, setmode: 15, curmode: 20, modename: 5, setoff_any: 5, ..Default::default() },
         "C07" => Profile { next: 40, nextp: 5, peek: 10, adv_after_peek: 5, adv_any: 5, setoff_any: 10, setmode: 5, off: 5, run_out: 5, ..Default::default() },
-        "C09" => Profile { next: 20, nextp: 35, setoff_back: 12, pos: 25, run_out: 8, ..Default::default() },
+        "C09" => Profile { next: 15, nextp: 35, setoff_back: 18, pos: 22, run_out: 6, setmode: 4, ..Default::default() },
         "C10" => Profile { next: 40, peek: 15, adv_after_peek: 15, setoff_any: 20, setmode: 5, run_out: 5, ..Default::default() },
         "C11" => Profile { next: 35, peek: 40, setmode: 8, setoff_any: 7, curmode: 5, off: 5, ..Default::default() },
         _ => Profile { next: 50, peek: 10, setoff_any: 10, setmode: 5, curmode: 5, pos: 5, nextp: 10, run_out: 5, ..Default::default() },
@@ -164,7 +164,18 @@ fn case_find(seed: u64, idx: usize, suite: &str, cache: &TableCache, out: &mut S
 fn case_iter(seed: u64, idx: usize, suite: &str, cache: &TableCache, out: &mut String, st: &mut Stats) {
     let mut r = Rng::derive(seed, idx as u64);
     let pc = ProgCfg { max_modes: 4, max_patterns: 4, lookahead: 15, nullable: true, transitions: true, big_tids: false };
-    let spec = cfggen::gen_program(&mut r, &pc);
+    let mut spec = cfggen::gen_program(&mut r, &pc);
+    if suite == "C09" {
+        // tokens that span line breaks, in some modes
+        const MULTILINE: [&str; 6] = ["[^b]+", "(?:\\n|a)+", "\\n+", "\\s+", "a[^c]*c", "(?:.|\\n){2,3}"];
+        for m in spec.iter_mut() {
+            if r.chance(60) {
+                let tid = m.patterns.iter().map(|p| p.tid).max().unwrap_or(0) + 1;
+                let pos = r.below(m.patterns.len() + 1);
+                m.patterns.insert(pos, cfggen::PatSpec { pattern: r.pick(&MULTILINE).to_string(), tid, lookahead: None });
+            }
+        }
+    }
     let modes = cfggen::to_modes(&spec);
     st.cases += 1;
     let built = catch_unwind(AssertUnwindSafe(|| {
@@ -237,7 +248,7 @@ fn case_iter(seed: u64, idx: usize, suite: &str, cache: &TableCache, out: &mut S
         }
         out.push_str("new 0\n");
         let mut h = History::new(&scanner, &input, 0, dump.modes.len());
-        let n_ops = r.range(4, 25);
+        let n_ops = if suite == "C09" { r.range(8, 40) } else { r.range(4, 25) };
         for _ in 0..n_ops {
             if h.dead {
                 break;
